@@ -1,9 +1,145 @@
 import GnpyDriver.JsonUtil
+import GnpyDriver.C03
 import GnpyModel
 /- driver handlers for property C05 (ops are named "c05.<name>") -/
 open Lean
 namespace Gnpy.Drv.C05
+open Gnpy.Gn Gnpy.Fiber
 
-def handlers : List (String × Handler) := []
+def getSpan (j : Json) : R (Span Float × Bool) := do
+  let fib ← C03.getFibre (← fld j "fibre")
+  let lumpedKm ← fList C03.getPair j "lumped"
+  let s : Span Float := { fib := fib, conIn := ← fF j "con_in", attIn := ← fF j "att_in", conOut := ← fF j "con_out",
+                          lumped := mkLumped lumpedKm, pmdCoef := ← fF j "pmd_coef" }
+  return (s, lumpedPositionsOk fib.len lumpedKm)
+
+def getAcc (j : Json) : R (List (Acc Float)) := do
+  let cd ← fList getF j "cd"
+  let pmd ← fList getF j "pmd"
+  let pdl ← fList getF j "pdl"
+  let lat ← fList getF j "latency"
+  return (cd.zip (pmd.zip (pdl.zip lat))).map (fun x => { cd := x.1, pmd := x.2.1, pdl := x.2.2.1, latency := x.2.2.2 })
+
+def jAcc (l : List (Acc Float)) : List (String × Json) :=
+  [("cd", jList jF (l.map (·.cd))), ("pmd", jList jF (l.map (·.pmd))), ("pdl", jList jF (l.map (·.pdl))),
+   ("latency", jList jF (l.map (·.latency)))]
+
+def allSome : List (Option β) → Option (List β)
+  | [] => some []
+  | none :: _ => none
+  | some x :: rest => (allSome rest).map (x :: ·)
+
+/-- `Fiber.__call__` with Raman off: powers and accumulated figures behind the span -/
+def spanH (j : Json) : R Json := do
+  let (s, ok) ← getSpan j
+  if !ok then return jObj [("error", jStr "NetworkTopologyError")]
+  let f ← fList getF j "f"
+  let p ← fList getF j "p"
+  let beta3 ← fOpt (getList getF) j "beta3"
+  let init ← getAcc (← fld j "init")
+  let b3s : List (Option Float) := match beta3 with
+    | some l => l.map some
+    | none => f.map (fun _ => none)
+  let outs := allSome ((f.zip p).map (fun x => spanOut s x.1 x.2))
+  let contribs := allSome ((f.zip b3s).map (fun x => spanContribution s x.1 x.2))
+  match outs, contribs with
+  | some o, some c =>
+    let acc := (init.zip c).map (fun x => accStep x.1 x.2)
+    return jObj ([("pch", jList jF o), ("loss", jOpt jF (spanLossDb s))] ++ jAcc acc)
+  | _, _ => return jObj [("error", jStr "SpectrumError")]
+
+inductive El where
+  | span (s : Span Float) (beta3 : Option (List Float))
+  | lumped (pmd pdl : List Float)
+
+def getEl (j : Json) : R El := do
+  match ← fStr j "kind" with
+  | "fiber" =>
+    let (s, _) ← getSpan j
+    return .span s (← fOpt (getList getF) j "beta3")
+  | _ => return .lumped (← fList getF j "pmd") (← fList getF j "pdl")
+
+/-- contribution of one element to every channel -/
+def elContribs (f : List Float) : El → Option (List (Contribution Float))
+  | .span s beta3 =>
+    let b3s : List (Option Float) := match beta3 with
+      | some l => l.map some
+      | none => f.map (fun _ => none)
+    allSome ((f.zip b3s).map (fun x => spanContribution s x.1 x.2))
+  | .lumped pmd pdl => some ((pmd.zip pdl).map (fun x => lumpedContribution x.1 x.2))
+
+/-- accumulated CD / PMD / PDL / latency over a path of fibres, ROADMs, amplifiers (in the given order) -/
+def pathH (j : Json) : R Json := do
+  let els ← fList getEl j "elements"
+  let f ← fList getF j "f"
+  let init ← getAcc (← fld j "init")
+  match allSome (els.map (elContribs f)) with
+  | none => return jObj [("error", jStr "SpectrumError")]
+  | some cs =>
+    -- cs : per element, per channel; fold the path channel by channel
+    let idx := List.range f.length
+    let acc := (init.zip idx).map (fun x => accPath x.1 (cs.filterMap (fun perEl => perEl[x.2]?)))
+    return jObj (jAcc acc)
+
+/-- rows ↔ columns of a rectangular matrix given as a list of columns of height `n` -/
+def transposeCols (n : Nat) (cols : List (List Float)) : List (List Float) :=
+  (List.range n).map (fun a => cols.filterMap (fun c => c[a]?))
+
+def solve (method : String) (order : Nat) (alpha : List Float) (cr : List (List Float)) (pin : List Float)
+    (grid : List (Float × Float)) : R (List (List Float)) :=
+  match method with
+  | "numerical" => pure (transposeCols pin.length (Gnpy.Raman.euler alpha cr pin grid))
+  | "perturbative" =>
+    if order > 4 then throw "ValueError" else pure (Gnpy.Raman.perturbative order alpha cr pin grid)
+  | _ => throw "ValueError"
+
+/-- `RamanSolver.calculate_unidirectional_stimulated_raman_scattering` on a given grid `(z, lumped)` -/
+def ramanUniH (j : Json) : R Json := do
+  let method ← fStr j "method"
+  let order ← fNat j "order"
+  let alpha ← fList getF j "alpha"
+  let cr ← fList (getList getF) j "cr"
+  let pin ← fList getF j "pin"
+  let grid ← fList C03.getPair j "grid"
+  match solve method order alpha cr pin grid with
+  | .error e => return jObj [("error", jStr e)]
+  | .ok pw =>
+    let ends := if method == "perturbative" then Gnpy.Raman.perturbativeEnd order alpha cr pin grid
+                else pw.zip pin |>.map (fun x => Gnpy.Raman.lastD x.2 x.1)
+    return jObj [("power", jList (jList jF) pw), ("end", jList jF ends)]
+
+/-- `Fiber.__call__` with Raman on and no pumps: `_create_lumped_losses` on the solver grid `z`, the unidirectional
+solver on the powers behind the input connector, the loss of the last grid point, the output connector -/
+def ramanFiberH (j : Json) : R Json := do
+  let (s, ok) ← getSpan j
+  if !ok then return jObj [("error", jStr "NetworkTopologyError")]
+  let method ← fStr j "method"
+  let order ← fNat j "order"
+  let cr ← fList (getList getF) j "cr"
+  let z ← fList getF j "z"
+  let f ← fList getF j "f"
+  let p ← fList getF j "p"
+  match allSome (f.map (alphaAt s.fib)) with
+  | none => return jObj [("error", jStr "SpectrumError")]
+  | some alpha =>
+    let p1 := p.map (fun x => applyAttDb x (s.conIn + s.attIn))
+    let grid := createLumped s.lumped z
+    match solve method order alpha cr p1 grid with
+    | .error e => return jObj [("error", jStr e)]
+    | .ok pw =>
+      let lossLast := (pw.zip p1).map (fun x => Gnpy.Raman.lastD x.2 x.1 / x.2)
+      let out := (p1.zip lossLast).map (fun x => applyAttDb (x.1 * x.2) s.conOut)
+      return jObj [("pch", jList jF out), ("loss_last", jList jF lossLast),
+                   ("grid", jList (fun g : Float × Float => Json.arr #[jF g.1, jF g.2]) grid)]
+
+/-- `numpy.interp(x, xp, fp)` (clamping) and `interp1d(xp, fp)(x)` (error outside) on a table -/
+def interpH (j : Json) : R Json := do
+  let xs ← fList getF j "x"
+  let tab ← fList C03.getPair j "table"
+  return jObj [("interp", jList jF (xs.map (fun x => Gnpy.Interp.interp x tab))),
+               ("interp1d", jList (jOpt jF) (xs.map (fun x => Gnpy.Interp.interp1d x tab)))]
+
+def handlers : List (String × Handler) :=
+  [("c05.interp", interpH), ("c05.span", spanH), ("c05.path", pathH), ("c05.raman_uni", ramanUniH), ("c05.raman_fiber", ramanFiberH)]
 
 end Gnpy.Drv.C05
